@@ -62,6 +62,36 @@ theorem dot_bounds (ws xs : List ℚ) {P M : ℚ} (hP : 0 ≤ P) (hM : M ≤ 0)
       simp only [dot, sumPos_cons, sumNeg_cons]
       constructor <;> nlinarith [ih'.1, ih'.2, ht.1, ht.2]
 
+/-- one term against the range AS STATED (no sign condition on the endpoints) -/
+theorem term_bounds_endpoint {w x P M : ℚ} (h1 : M ≤ x) (h2 : x ≤ P) :
+    negPart w * P + posPart w * M ≤ w * x ∧ w * x ≤ posPart w * P + negPart w * M := by
+  unfold posPart negPart
+  rcases lt_trichotomy w 0 with h | h | h
+  · have h' : ¬ (0 < w) := by linarith
+    simp only [h, h', if_true, if_false]
+    constructor <;> nlinarith
+  · subst h; simp
+  · have h' : ¬ (w < 0) := by linarith
+    simp only [h, h', if_true, if_false]
+    constructor <;> nlinarith
+
+/-- the weights-only part of the ENDPOINT bound: every tap reads a real input element
+    (`ws.length ≤ xs.length`, no padded zero) inside `[M, P]` -/
+theorem dot_bounds_endpoint (ws xs : List ℚ) {P M : ℚ} (hlen : ws.length ≤ xs.length)
+    (hx : ∀ x ∈ xs, M ≤ x ∧ x ≤ P) :
+    sumNeg ws * P + sumPos ws * M ≤ dot ws xs ∧ dot ws xs ≤ sumPos ws * P + sumNeg ws * M := by
+  induction ws generalizing xs with
+  | nil => simp [dot, sumPos, sumNeg]
+  | cons w ws ih =>
+    cases xs with
+    | nil => simp at hlen
+    | cons x xs =>
+      have hx0 := hx x (by simp)
+      have ih' := ih xs (by simpa using hlen) (fun y hy => hx y (by simp [hy]))
+      have ht := term_bounds_endpoint (w := w) hx0.1 hx0.2
+      simp only [dot, sumPos_cons, sumNeg_cons]
+      constructor <;> nlinarith [ih'.1, ih'.2, ht.1, ht.2]
+
 /-- `max(n1, n0) ≥ 0`: `n1 + n0 = (npp − nnn)·(x⁺ − x⁻) ≥ 0`, so `log2` never sees a negative
     number and the only failure of `int(ceil(log2 ·))` is `log2 0` (OverflowError) -/
 theorem chanBound_nonneg (ws : List ℚ) (b xmin xmax : ℚ) : 0 ≤ chanBound ws b xmin xmax := by
@@ -135,6 +165,25 @@ theorem le_listMax {l : List ℚ} {v : ℚ} (h : v ∈ l) : v ≤ listMax l := b
       intro v hv
       rcases List.mem_cons.1 hv with rfl | hv
       · exact le_trans (by split <;> linarith) h1
+      · exact h2 v hv
+  exact (key l _).2 v h
+
+/-- every element of a list is at least `listMin` -/
+theorem listMin_le {l : List ℚ} {v : ℚ} (h : v ∈ l) : listMin l ≤ v := by
+  unfold listMin
+  have key : ∀ (l : List ℚ) (a : ℚ), l.foldl (fun a b => if b < a then b else a) a ≤ a ∧
+      ∀ v ∈ l, l.foldl (fun a b => if b < a then b else a) a ≤ v := by
+    intro l
+    induction l with
+    | nil => intro a; simp
+    | cons b t ih =>
+      intro a
+      simp only [List.foldl_cons]
+      obtain ⟨h1, h2⟩ := ih (if b < a then b else a)
+      refine ⟨le_trans h1 (by split <;> linarith), ?_⟩
+      intro v hv
+      rcases List.mem_cons.1 hv with rfl | hv
+      · exact le_trans h1 (by split <;> linarith)
       · exact h2 v hv
   exact (key l _).2 v h
 
